@@ -1135,7 +1135,7 @@ func runC11(ctx *vh.Ctx) error {
 	if in := os.Getenv("VH_C11_CHILD_IN"); in != "" {
 		return c11ChildMain(in, os.Getenv("VH_C11_CHILD_OUT"))
 	}
-	ctx.Res.Rule = "stateful compose graphs (Pregel / DAG / Workflow, 1-2 layers of 2-6 parallel branches of 1-2 nodes closed by join nodes, nested stateful and stateless sub-graphs, plain and stream pre/post handlers, ProcessState increments and stamps in node bodies) run 1-8 times concurrently, optionally interrupted (before/after nodes) and resumed with a StateModifier; non-trivial = at least two parallel branches and a state object; distinct by (modes+statefulness of all graphs, node count, paradigm, runs, interrupt shape, micro seed class)"
+	ctx.Res.Rule = "stateful compose graphs (Pregel / DAG / Workflow, 1-2 layers of 2-6 parallel branches of 1-2 nodes closed by join nodes, nested stateful and stateless sub-graphs, plain and stream pre/post handlers, ProcessState increments and stamps in node bodies) run 1-8 times concurrently, optionally interrupted (before/after nodes) and resumed with a StateModifier; resume family: sequential nests of 1-5 graph levels (each with or without own state) interrupted 1-3 times before/after nodes of any level or by InterruptAndRerun through a bytes-only checkpoint store and resumed with and without a StateModifier, Invoke and Stream, compared with the level-by-level resume model and the uninterrupted reference; eager family: stateful Workflows (top-level or nested) whose resume restores 2-4 tasks that run in parallel, one held inside a ProcessState callback by barriers while a successor created after the resume touches the state (overlap detector, N increments give N, race detector); non-trivial = at least two parallel branches and a state object / an interrupt inside a nested level or a single level / every eager case; distinct by (modes+statefulness of all graphs, node count, paradigm, runs, interrupt shape, micro seed class)"
 	if !c11IsRaceBuild() {
 		ctx.Res.Note("harness binary built without -race: data races are not observed in this run")
 	} else {
@@ -1150,17 +1150,39 @@ func runC11(ctx *vh.Ctx) error {
 	}
 	quick := !ctx.Thorough()
 	n := ctx.N(140, 1500)
-	if err := c11Batch(ctx, c11MisuseCases(), "misuse"); err != nil {
+	if err := c11Batch(ctx, append(c11MisuseCases(), c11WitnessStatelessNested()), "misuse"); err != nil {
 		return err
 	}
-	chunk := 35
-	for done := 0; done < n && ctx.TimeLeft(); done += chunk {
-		var cases []*c11Case
-		for i := 0; i < chunk && done+i < n; i++ {
-			cases = append(cases, c11Gen(ctx.Rng, quick))
-		}
-		if err := c11Batch(ctx, cases, fmt.Sprint(done)); err != nil {
-			return err
+	// three families, interleaved chunk by chunk so that a budget cut-off starves none of them:
+	// sequential nests interrupted at any level (resume), eager Workflows resuming several
+	// restored tasks in parallel (eager), parallel stateful graphs (graph)
+	nChain, nEager := ctx.N(150, 900), ctx.N(54, 300)
+	fams := []struct {
+		name     string
+		n, chunk int
+		gen      func() *c11Case
+		done     int
+	}{
+		{"chain", nChain, 50, func() *c11Case { return c11GenChain(ctx.Rng, quick) }, 0},
+		{"eager", nEager, 18, func() *c11Case { return c11GenEager(ctx.Rng, quick) }, 0},
+		{"graph", n, 35, func() *c11Case { return c11Gen(ctx.Rng, quick) }, 0},
+	}
+	for more := true; more && ctx.TimeLeft(); {
+		more = false
+		for fi := range fams {
+			f := &fams[fi]
+			if f.done >= f.n || !ctx.TimeLeft() {
+				continue
+			}
+			var cases []*c11Case
+			for i := 0; i < f.chunk && f.done+i < f.n; i++ {
+				cases = append(cases, f.gen())
+			}
+			if err := c11Batch(ctx, cases, fmt.Sprint(f.name, f.done)); err != nil {
+				return err
+			}
+			f.done += len(cases)
+			more = more || f.done < f.n
 		}
 	}
 	return nil
